@@ -49,7 +49,8 @@ CONSTANTS NK,          \* keys 1 .. NK
           GhostTails,  \* TRUE: every continuation block is a byte-exact image of a one-block record
           Tears,       \* at most this many torn units per crash image (0 = block-granular loss only)
           FreshStart, InitSync,
-          SyncIntent, SyncData, SyncClear, JournalAll, SuccTest, SyncMarkers
+          SyncIntent, SyncData, SyncClear, JournalAll, SuccTest, SyncMarkers,
+          ClearSlot    \* TRUE (the code): a CLEAR write records the slot it went to, so slots strictly alternate
 
 ASSUME /\ NK \in Nat /\ MaxGen \in Nat /\ MaxTs \in Nat /\ JMax \in Nat \ {0} /\ MaxFlush \in Nat
        /\ Tears \in Nat /\ Sizes \subseteq (Nat \ {0})
@@ -242,7 +243,10 @@ WData ==
   /\ UNCHANGED <<cur, gens, ng, q, retq, free, dur, jpos, mgen, boot, hist, ack, fl>> /\ NoAck
 WClear(from, to) ==
   /\ wk.pc = from
-  /\ pend' = Append(pend, JW(FALSE, <<>>)) /\ jpos' = NextJ
+  /\ pend' = Append(pend, JW(FALSE, <<>>))
+  \* without the slot update the next ACTIVE image overwrites this CLEAR in place and the other
+  \* slot keeps the previous ACTIVE image: a torn write then falls back to a stale intent list
+  /\ jpos' = IF ClearSlot THEN NextJ ELSE [NextJ EXCEPT !.slot = jpos.slot]
   /\ wk' = [wk EXCEPT !.pc = to]
   /\ UNCHANGED <<cur, gens, ng, q, retq, free, dur, mgen, boot, hist, ack, fl>> /\ NoAck
 WPublish ==
